@@ -53,6 +53,14 @@ class AbstractDiscreteTimeOnlineInterpreter(AbstractOnlineInterpreter, DiscreteT
     def reset(self):
         super(AbstractDiscreteTimeOnlineInterpreter, self).reset()
 
+        # the input variables get the initial value of their type back: an update that does not mention
+        # a variable uses the last value it was given, which must not be one from before the reset
+        for var_name in self.ast.free_vars:
+            var_value = self.ast.create_var_from_name(var_name)
+            self.ast.var_object_dict[var_name] = var_value
+            if var_name in self.online_operator_dict:
+                self.online_operator_dict[var_name].sample = var_value
+
         self.update_counter = int(0)
         self.previous_time = float(0.0)
         self.sampling_violation_counter = int(0)
